@@ -535,7 +535,10 @@ impl World {
                             self.next_hash = None;
                         } else if n == h {
                             // a reorg to the current height runs the same pass (it is what cleans up after
-                            // a reorg that died half-way) and, like every reorg, commits
+                            // a reorg that died half-way) and, like every reorg, commits. What was submitted
+                            // for the block above it (a signed transaction parked without opening the block)
+                            // belongs to "the blocks above N" and goes with them
+                            self.recs.retain(|r| r.height <= n);
                             self.committed = Some(n);
                             self.snapshot = (self.recs.clone(), self.h);
                         }
